@@ -391,10 +391,23 @@ def run(ctx):
                     isinstance(n.value, ast.Name) and n.value.id in lvs:
                 lv = n.value.id
                 X = n.targets[0].value.id
+                def selecting_names(e):
+                    # names that decide WHICH channels are selected: the bounds of a plain
+                    # slice (x[:k]) only decide how many, so they are not followed
+                    out = set()
+                    stack = [e]
+                    while stack:
+                        x = stack.pop()
+                        if isinstance(x, ast.Slice):
+                            continue
+                        if isinstance(x, ast.Name):
+                            out.add(x.id)
+                        stack.extend(ast.iter_child_nodes(x))
+                    return out
                 seen, work = set(), [n.targets[0].slice]
                 while work:
                     e = work.pop()
-                    for nm in {x.id for x in ast.walk(e) if isinstance(x, ast.Name)}:
+                    for nm in selecting_names(e):
                         if nm not in seen:
                             seen.add(nm)
                             work.extend(body_defs.get(nm, []))
